@@ -15,6 +15,9 @@ def fresh : St :=
            blocked := fun _ => false, sendEnabled := fun _ => true, modAddr := [], evm := fun _ => none },
     next := 0, metaSet := [] }
 
+/-- token balance of the module account the harness writes into a fresh `tinyd` contract -/
+def tinydPrefund : Nat := 10 ^ 33
+
 def ackStr : Option Ack → String
   | none => "nil"
   | some (.result b) => "s:" ++ hex b
@@ -31,6 +34,7 @@ def parseKind (s : String) : Option Kind :=
   | "tiny0" => some (.tiny 0)
   | "tiny1" => some (.tiny 1)
   | "tiny2" => some (.tiny 2)
+  | "tinyd" => some .tinyd
   | "revert" => some .revert
   | "nocode" => some .nocode
   | "balrevert" => some .balrevert
@@ -78,8 +82,14 @@ def obs (st : State EvmSt) (pairBefore : Option Pair) (v : View) : String :=
       match (E.balanceOf st.evm p.contract (evmAddr (v.receiver.getD []))).2 with
       | some n => toString n
       | none => "x"
+  let mtok := match pairBefore with
+    | none => "-"
+    | some p =>
+      match (E.balanceOf st.evm p.contract (evmAddr st.modAddr)).2 with
+      | some n => toString n
+      | none => "x"
   let reg := if (st.denomMap v.denom).isSome then "1" else "0"
-  " rv=" ++ rv ++ " mv=" ++ mv ++ " tok=" ++ tok ++ " reg=" ++ reg
+  " rv=" ++ rv ++ " mv=" ++ mv ++ " tok=" ++ tok ++ " mtok=" ++ mtok ++ " reg=" ++ reg
 
 def evStr : Ev → String
   | .none => "-"
@@ -119,7 +129,9 @@ def step (st : St) (line : String) : St × String :=
         let s' := { st.s with
           denomMap := fun x => if x = dn then some id else oldM x
           pairs := fun i => if i = id then some p else oldP i
-          evm := setContract st.s.evm id { kind := kind, bals := fun _ => 0, supply := 0 } }
+          evm := setContract st.s.evm id
+            { kind := kind, supply := 0
+              bals := fun a => if kind == .tinyd && a = evmAddr st.s.modAddr then tinydPrefund else 0 } }
         ({ s := s', next := id + 1, metaSet := if kind == .std then dn :: st.metaSet else st.metaSet }, "ok " ++ toString id)
     | _, _, _ => (st, "bad-op")
   | ["addcoin", d, existing] =>
